@@ -272,7 +272,7 @@ func runC11(c *Ctx) {
 	for _, r := range rows {
 		if !r.used {
 			c.SetConfig("tables")
-			c.Fail("stale-table", "poolstate:"+r.typ+":"+r.loc, "", "reviewed line no longer matches any exposed location (remove it): "+r.typ+" "+r.loc)
+			c.Stale("poolstate:"+r.typ+":"+r.loc)
 		}
 	}
 }
